@@ -37,6 +37,8 @@ def units(tier, seed):
     W = _g.WIDE_P
     out += [{"stage": "dagI", "p": W, "codes": c} for c in split_list(_g.wide_sparse_codes("dag", 1 if tier == "quick" else 2), 16)]
     out.append({"stage": "dagI", "p": W, "codes": [G.encode(W, ch, [0] * W) for ch in _g.wide_targeted()]})
+    out.append({"stage": "dagI", "p": _g.BIG_P, "codes": _g.big_codes("dag")})        # 70 nodes, edges on node indices >= 64
+    out.append({"stage": "pdagI-big", "p": _g.BIG_P, "codes": _g.big_codes("pdag")})
     return out
 
 
@@ -86,12 +88,12 @@ def check_dag_I(p, ch, lab, targets, chain_too=True):
     return fails, len(cls), len(icl), ncalls
 
 
-def check_pdag_I(p, code, targets):
+def check_pdag_I(p, code, targets, lab="pdag"):
     ch, und = G.decode(p, code)
     if not G.is_acyclic(p, ch):
         return None
     fails = []
-    P = _g.pdag_matrix(p, ch, und)
+    P = _g.pdag_any(p, ch, und, lab)
     I = set(targets)
     r = _g.call(U.pdag_to_icpdag, P.copy(), set(I))
     und_at_target = any(und[t] for t in targets)
@@ -144,7 +146,7 @@ def run_unit(unit):
                 masks = sorted(set([0, (1 << p) - 1, sum(1 << i for i in active)] + [1 << i for i in active]))
             labs_here = labs
             if p <= 3:
-                labs_here = tuple(labs) + tuple(_g.sign_labs(p, ch))
+                labs_here = tuple(labs) + ("tiny",) + tuple(_g.sign_labs(p, ch))
             for m in masks:
                 targets = G.bits(m)
                 for lab in labs_here:
@@ -162,10 +164,15 @@ def run_unit(unit):
                         acc.fail("dagI", {"p": p, "code": code, "lab": lab, "I": targets}, sig, msg)
     else:
         codes = unit["codes"] if "codes" in unit else range(unit["lo"], unit["hi"])
-        for code in codes:
-            for m in range(1 << p):
+        for code, lab in ((c, l) for c in codes for l in ("pdag",)):
+            masks = range(1 << p)
+            if p > 5:   # big graphs: no target, every single node carrying an edge, all of those, all nodes
+                ch_, und_ = G.decode(p, code)
+                active = [i for i in range(p) if G.adjacency(p, ch_, und_)[i]]
+                masks = sorted(set([0, (1 << p) - 1, sum(1 << i for i in active)] + [1 << i for i in active]))
+            for m in masks:
                 targets = G.bits(m)
-                res = check_pdag_I(p, code, targets)
+                res = check_pdag_I(p, code, targets, lab)
                 if res is None:
                     break
                 fails, uat, nE = res
@@ -178,7 +185,7 @@ def run_unit(unit):
                     acc.nontrivial += 1
                 acc.outcome(["pdagI", uat, nE > 0])
                 for sig, msg in fails:
-                    acc.fail("pdagI", {"p": p, "code": code, "I": targets}, sig, msg)
+                    acc.fail("pdagI", {"p": p, "code": code, "I": targets, "lab": lab}, sig, msg)
     return acc.out()
 
 
@@ -188,14 +195,14 @@ def replay(kind, case):
         return check_dag_I(p, _g.chain_ch(p), "bin", case["I"])[0]
     if kind == "dagI":
         return check_dag_I(p, G.decode(p, case["code"])[0], case["lab"], case["I"])[0]
-    res = check_pdag_I(p, case["code"], case["I"])
+    res = check_pdag_I(p, case["code"], case["I"], case.get("lab", "pdag"))
     return res[0] if res else []
 
 
 def describe(tier, seed):
     return {
         "technique": "exhaustive enumeration of (DAG, target set) pairs on the real code vs brute-force class filtered by the targets' parent sets",
-        "rule": "imec (with/without chain shortcut) and dag_to_icpdag for every labelled DAG x every subset I: p<=4 under 3 weight labelings (+ every +-1 sign assignment at p<=3; wide 10-node graphs with <=2 edges and targeted colliders x selected I) "
+        "rule": "imec (with/without chain shortcut) and dag_to_icpdag for every labelled DAG x every subset I: p<=4 under 3 weight labelings (+ every +-1 sign assignment and tiny weights down to 3e-310 at p<=3; 70-node graphs with edges on node indices >= 64 x selected I; wide 10-node graphs with <=2 edges and targeted colliders x selected I) "
                 "(+ 5-node DAGs with <=3 edges and every 128th 5-node DAG quick; all 29,281 x 32 pairs at p=5 thorough); chains to p=7 (quick) / 10 (thorough) x all I; "
                 "pdag_to_icpdag for every PDAG x I (p<=4; sparse p=5 thorough): ValueError iff a target has an undirected edge or no extension, "
                 "else the union graph of the I-class; non-trivial: class size > 1 and I a proper non-empty subset",
